@@ -42,6 +42,8 @@ def run(ctx):
                       "equality whatever their concrete types; containers element-wise; anything else unequal", floor=1)
     ctx.rule("R03.s", "class route: a class-level assignment through a subclass notifies the class watchers only after the subclass shows the new value -- the per-class copy of an inherited "
                       "Parameter is installed in the class namespace before its __set__ (which dispatches) runs (shared with R13.e)", floor=1)
+    ctx.rule("R03.k", "every class and every instance has dispatch state of its own: _ClassPrivate.__init__ / _InstancePrivate.__init__ interpreted twice in one interpreter (module-level "
+                      "objects shared, as at run time) store no container -- state dict, event queue, watcher queue, stores, tables -- that the other namespace holds too, at any depth", floor=1)
     ctx.rule("R03.r", "precedence is kept as given: Watcher.__new__ interpreted abstractly stores the precedence it is handed (an integer, a fraction, a negative internal one) unchanged and 0 "
                       "when none is given -- the dispatch order is the order of these numbers", floor=1)
     ctx.rule("R03.a", "every watcher dispatch in Parameter.__set__ is preceded on every path by the value store (or the constant-identity case); "
@@ -180,9 +182,16 @@ def run(ctx):
     ue = ctx.repo.func(P + "Parameters._update_event_type")
     n = 0
     bad = []
-    for trig_, oc in itertools.product([True, False], repeat=2):
+    for trig_, oc, differs in itertools.product([True, False], repeat=3):
+        # `differs`: what the comparator says about old / new (a trigger re-announces the current value, but NaN, Event
+        # values and objects without an equality the comparator knows are "changed" even when old is new)
         ev = Obj("event", what="value", name="x", obj=None, cls=None, old=1, new=2, type=None)
-        it = Interp(ctx.hier, self_obj=None)
+
+        def hook_d(fn, args, kwargs, differs=differs):
+            if fn.endswith("._changed"):
+                return differs
+            return NotImplemented
+        it = Interp(ctx.hier, self_obj=None, call_hook=hook_d, strict_self_calls=True)
         try:
             outs = it.run_all(ue, {"self_": Obj("ns"), "watcher": Obj("watcher", onlychanged=oc), "event": ev, "triggered": trig_})
         except Unsupported as e:
@@ -198,9 +207,10 @@ def run(ctx):
                 bad.append((trig_, oc, got, want))
     ctx.abstract_cases += n
     if bad:
-        ctx.fail("R03.d", ue, ue.node, "event type table wrong: (triggered=%s, onlychanged=%s) gives %r, expected %r (or old/new/name are not passed through)" % bad[0])
+        ctx.fail("R03.d", ue, ue.node, "event type table wrong: (triggered=%s, onlychanged=%s) gives %r, expected %r (or old/new/name are not passed through)" % bad[0],
+                 key=ue.qualname + "::event-type-table")
     else:
-        ctx.ok("R03.d", ue, ue.node, "4/4 abstract cases agree; old/new/name/what passed through unchanged")
+        ctx.ok("R03.d", ue, ue.node, "8/8 abstract cases agree (triggered x changes-only x whatever the comparator says about old/new); old/new/name/what passed through unchanged")
 
     # ------------------------------------------------------------- R03.e
     rw = ctx.repo.func(P + "Parameters._register_watcher")
@@ -342,6 +352,8 @@ def run(ctx):
     class_set_after_install(ctx, "R03.s")
     from checks.shared import watcher_new_model
     watcher_new_model(ctx, "R03.r")
+    from checks.shared import fresh_private_state
+    fresh_private_state(ctx, "R03.k")
 
     # the model-level rule comes last: if the interpreter cannot follow an edited flush,
     # the structural findings above are still reported
